@@ -296,7 +296,7 @@ def run(prog, run):
     inserts = [i for i, h in w if h.startswith('insert')]
     flags = [i for i, n in cont.all_nodes('assign') if cont.nodes[cont.skip(n['l'])].get('f') == FLAG and cont.const_value(n['r']) == ('bool', True)]
     okc = clears and inserts and flags and all(cont.node_dominates(clears[0], x) for x in inserts) \
-        and all((_enclosing_rangefor(cont, x) or '').find('QXmppRosterIq::items') >= 0 for x in inserts)
+        and all(_over_all_items(cont, x) for x in inserts)
     if okc:
         run.ok(r4, cont.loc(), 'full roster: entries.clear() dominates the inserts; one insert per item; received flag set')
     else:
@@ -327,6 +327,22 @@ def run(prog, run):
         else:
             run.violation(r5, '_q_presenceReceived#%s#%s' % (case, h.split(' ')[-1]), f.loc(i),
                           'presence table written with %s under case %s' % (h, case))
+
+
+def _over_all_items(f, nid):
+    """the node sits in a range-for over rosterIq.items() - or, in a helper that is handed the items, over that parameter"""
+    pos = f.pos(nid)
+    if pos is None:
+        return False
+    for (_, b, i) in f.edges_dominating(pos[0]):
+        t = f.blocks[b].get('term')
+        if t and t['k'] == 'rangefor' and i == 0 and 'range' in t:
+            if 'QXmppRosterIq::items' in f.fmt(t['range']):
+                return True
+            r = f.nodes[f.skip(t['range'])]
+            if r['k'] == 'var' and r.get('vk') == 'param' and 'QXmppRosterIq::Item' in (r.get('t') or ''):
+                return True
+    return False
 
 
 def _obj_is_entries(f, call):
